@@ -137,15 +137,15 @@ def dictionary_cases(modes):
     cases = []
     EXACT = set(dictionary.exact())      # the literals themselves (NOVEL also has their neighbours); the expensive scenarios use only these
     for v in NOVEL:
-        for which, nl in ((0, 10), (1, 10), (2, 0)):
-            term = [13, 10] if which == 1 else [nl]
+        for which, nl, crlf in ((0, 10, False), (0, 10, True), (1, 10, True), (2, 0, False)):
+            term = [13, 10] if crlf else [nl]
             S = dictionary.size_for(v + 3)
             for mode in modes[:1]:
                 if S is not None:
                     # read offset = v when the call starts
                     cases.append(mk_case(S, which, [122] * v + [97], v, [98] + term + [99] + term, [(0, 1, 0)] * 3 + [(0, 70000, 0)] * 6, 4, mode, "dictionary"))
                     # read offset = v and the next frame fits only after compaction (unread + stream < SIZE, but not behind the offset)
-                    if 2 <= v and S - v <= 20000 and which == 0 and v in EXACT:
+                    if 2 <= v and S - v <= 20000 and which == 0 and not crlf and v in EXACT:
                         cases.append(mk_case(S, which, [122] * v + [97], v, [98] * (S - v - len(term)) + term + [99] + term, [(0, 70000, 0)] * 8, 3, mode, "dictionary"))
                         cases.append(mk_case(S, which, [122] * v + [97], v, [98] * (S - v - len(term)) + term + [99] + term, [(0, 5, 0)] + [(0, 70000, 0)] * 8, 3, mode, "dictionary"))
                     # a frame of exactly v payload bytes, in one chunk, in chunks of v, one byte at a time at the boundary
@@ -153,6 +153,11 @@ def dictionary_cases(modes):
                     big = [(0, 70000, 0)] * 6         # every script ends in whole-buffer reads: no byte-at-a-time tail over a long stream
                     for script in ([], [(0, max(v, 1), 0)], [(0, max(v - 1, 1), 0), (0, 1, 0), (0, 1, 0)], [(0, 3, 0)] * 5):
                         cases.append(mk_case(S, which, [], 0, st, script + big, 4, mode, "dictionary"))
+                    # a single read returns exactly v bytes (the reader is asked again only when the caller asks), short frames throughout
+                    if v in EXACT and 256 <= v <= 140000 and not crlf:
+                        filler = ([99] * 97 + term) * ((v + 200) // (97 + len(term)) + 2)
+                        for script in ([(0, v, 0)] * 3 + [(1, 5, 0)], [(0, v, 0), (1, 5, 0)], [(0, v, 0)] * 4):
+                            cases.append(mk_case(S, which, [], 0, [97, 98] + term + filler, script + [(0, 70000, 0)] * 4, 3, mode, "dictionary"))
                     # unread length = v before the call
                     if v <= 4096:
                         cases.append(mk_case(S, which, [97] * v, 0, term + [98] + term, [(0, 2, 0)] + [(0, 70000, 0)] * 6, 3, mode, "dictionary"))
@@ -235,7 +240,7 @@ class RfProp(Prop):
         for _ in range(n):
             r = rng.random()
             if self.faults and r < 0.25:
-                script.append((1, rng.choice([3, 4, 5, 6, 7]), 0) if rng.random() < 0.85 else (2, 0, 0))
+                script.append((1, rng.choice([1, 2, 3, 4, 5, 6, 7]), 0) if rng.random() < 0.85 else (2, 0, 0))
             elif self.scribble and r < 0.5:
                 script.append((0, rng.choice([0, 1, 2, 3, 2 ** 64 - 1]), rng.choice([1, 2, 5, 2 ** 64 - 1])))
             else:
@@ -431,7 +436,7 @@ class C06(RfProp):
                   "under retry, for any number and placement), c06_own_errors (InvalidData / UnexpectedEof leave the unread bytes intact and "
                   "repeat), c06_reader_panic. Tie: a fault (5 error kinds, panic) at every reader-call index of every short scenario, random "
                   "combinations; the retry checker compares against the fault-free chunk-free specification.")
-    nontrivial_rule = ("C02's scenarios with a fault (Interrupted, WouldBlock, TimedOut, ConnectionReset, Other, panic) injected at every "
+    nontrivial_rule = ("C02's scenarios with a fault (InvalidData, UnexpectedEof, Interrupted, WouldBlock, TimedOut, ConnectionReset, Other, panic) injected at every "
                        "position of the reader-call sequence (singly, exhaustive for short scripts) and in random combinations, the caller "
                        "retrying after each error; non-trivial = at least one injected fault reached; distinct = distinct (case, trace)")
 
@@ -450,7 +455,7 @@ class C06(RfProp):
                     for parts in comps:
                         base = [(0, k, 0) for k in parts]
                         for pos in range(len(base) + 1):
-                            for fault in ((1, 5, 0), (1, 3, 0), (2, 0, 0), (1, 6, 0)) if (pos + len(st)) % 2 == 0 else ((1, 4, 0), (1, 7, 0)):
+                            for fault in ((1, 5, 0), (1, 3, 0), (2, 0, 0), (1, 6, 0), (1, 2, 0)) if (pos + len(st)) % 2 == 0 else ((1, 4, 0), (1, 7, 0), (1, 1, 0)):
                                 script = base[:pos] + [fault] + base[pos:]
                                 cases.append(mk_case(size, which, [], 0, st, script, min(len(st) + 4, 8), 0, "fault-at-every-index"))
         for _ in range(3000 if tier == "quick" else 80000):
